@@ -1,11 +1,14 @@
 """Property id -> check class; engines; properties not (yet) claimed."""
-from . import e1, e3
+from . import e1, e2, e3
 
 PROPS = {}
 PROPS.update(e1.PROPS)
 PROPS.update(e3.PROPS)
+PROPS.update(e2.PROPS)
 
 ENGINES = [
+    {"name": "E2-writepath-edit", "path": "vh/e2.py", "serves_properties": ["C06", "C07"],
+     "kind_free_text": "TLC model checking of EditModel (write path + edit semantics); TLC -simulate behaviours replayed into create/edit; TLC trace validation (TraceEdit.tla)"},
     {"name": "E3-recheck", "path": "vh/e3.py", "serves_properties": ["C04", "C05", "C16"],
      "kind_free_text": "TLC model checking of FeedChecker/HashChecker vs RecheckRef + TLC trace validation (TraceRecheck.tla) of recorded rechecks"},
     {"name": "E1-create-hashers", "path": "vh/e1.py", "serves_properties": ["C01", "C02", "C03", "C10", "C15"],
